@@ -70,6 +70,17 @@ func init() {
 		}
 		allStrings(small, n, func(b []byte) { e.emit("valid %s nil", hs(b)) })
 		usedBufferHistories(e, []string{"valid"}, false) // "previously used" Buffers
+		nearClassRuns("digits", func(v []byte) {
+			e.emit("valid %s nil", hs(v))
+			e.emit("valid %s nil", hs(append(append([]byte("[0."), v...), ']')))
+			e.emit("valid %s nil", hs(append(append([]byte("1e"), v[:min(len(v), 12)]...), ' ')))
+		})
+		nearClassRuns("spaces", func(v []byte) {
+			e.emit("valid %s nil", hs(append(append([]byte{}, v...), '1')))
+			e.emit("valid %s nil", hs(append(append([]byte("[1,"), v...), []byte("2]")...)))
+			e.emit("valid %s nil", hs(append(append([]byte("1"), v...), 'x')))
+			e.emit("valid %s nil", hs(append([]byte("1"), v...)))
+		})
 		if !thorough {
 			// sampled length 3-4
 			for i := 0; i < 20000; i++ {
@@ -106,6 +117,14 @@ func init() {
 		}
 		allStrings(alphabet, n, func(b []byte) { e.emit("skip %s nil", hs(b)) })
 		usedBufferHistories(e, []string{"skip"}, false)
+		nearClassRuns("digits", func(v []byte) {
+			e.emit("skip %s nil", hs(v))
+			e.emit("skip %s nil", hs(append([]byte("-0."), v...)))
+		})
+		nearClassRuns("spaces", func(v []byte) {
+			e.emit("skip %s nil", hs(append(append([]byte{}, v...), []byte("true x")...)))
+			e.emit("skip %s nil", hs(append(append([]byte("[1"), v...), []byte(",2]")...)))
+		})
 		// every value followed by every possible next byte
 		for _, v := range valuePool {
 			for c := 0; c < 256; c++ {
@@ -465,6 +484,14 @@ func init() {
 			"9999999999999999999", "10000000000000000000", "99999999999999999999", "100000000000000000000", "1844674407370955161", "1844674407370955162", "184467440737095516150"}
 		ops := []string{"u64", "i64", "i32", "u32", "int", "uint"}
 		nexts := []string{"", " ", ".", "e", "E", "x", ",", "]", "5", "0", "-", "+", "\x00", "\xff"}
+		nearClassRuns("digits", func(v []byte) {
+			for _, op := range ops {
+				e.emit("%s %s", op, hs(v))
+				e.emit("%s %s", op, hs(append([]byte("-"), v...)))
+			}
+			e.emit("dec i64 %s 7", hs(v))
+			e.emit("dec u32 %s 7", hs(append([]byte(" "), v...)))
+		})
 		// the Decode forms behave as the readers on non-null input: literals at every bound, bare
 		// signs and out-of-range values, followed by what a null test at the wrong place would accept
 		for _, lit := range []string{"-", "+", "--", "0", "-0", "7", "-7", "2147483647", "2147483648", "-2147483648", "-2147483649", "4294967295", "4294967296",
@@ -597,6 +624,42 @@ func init() {
 				}
 			}
 		}
+		// whitespace runs of every length up to 24 (and their near misses) in front of one token of each
+		// type, for the classifiers and for every reader that skips whitespace itself
+		toks := []string{`"1"`, "1", "null", "true", "false", "[]", "{}", "x", ",", "-5", "0.5"}
+		nearClassRuns("spaces", func(v []byte) {
+			for _, lead := range []string{"", "\n", "\t", "\r"} {
+				for ti, tk := range toks {
+					if lead != "" && ti > 4 && len(v) != 7 && len(v) != 15 {
+						continue
+					}
+					d := append(append([]byte(lead), v...), tk...)
+					h := hs(d)
+					e.emit("ntok %s", h)
+					e.emit("ntt %s", h)
+					switch ti {
+					case 0:
+						e.emit("rsb %s - 0", h)
+						e.emit("u64 %s", h)
+						e.emit("f64 %s", h)
+					case 1, 9, 10:
+						e.emit("i64 %s", h)
+						e.emit("f64 %s", h)
+						e.emit("rs %s nil", h)
+					case 2:
+						e.emit("rnull %s", h)
+						e.emit("ra %s", h)
+						e.emit("ro %s", h)
+					case 3, 4:
+						e.emit("rbool %s", h)
+					case 5, 6:
+						e.emit("ra %s", h)
+						e.emit("ro %s", h)
+						e.emit("rnull %s", h)
+					}
+				}
+			}
+		})
 		wss := []string{"", " ", "\t", "\r", "\n", "  ", " \t", "\r\n", "\n\n\n", " \t\r"}
 		for _, ws := range wss {
 			for c := 0; c < 256; c++ {
@@ -658,7 +721,7 @@ func init() {
 			}
 		}
 		// every reader on every token class
-		toks := []string{"null", "true", "false", "0", "-1", "1.5", `"s"`, "[]", "{}", "[1]", `{"a":1}`, ",", ":", "]", "}", "x", ""}
+		toks = []string{"null", "true", "false", "0", "-1", "1.5", `"s"`, "[]", "{}", "[1]", `{"a":1}`, ",", ":", "]", "}", "x", ""}
 		for _, tk := range toks {
 			for _, ws := range []string{"", " "} {
 				h := hs([]byte(ws + tk))
